@@ -19,7 +19,9 @@ Oracle: results equal the reference value and are reduced elements of the same f
 (0 <= value < p, degree < ext_deg, canonical coefficient list); x/0, reciprocal of 0 raise
 ZeroDivisionError (0**negative must raise, ZeroDivisionError or ValueError); mixing with an int or
 polynomial equals converting it first; a << n == a * 2**n and a >> n == a / 2**n with 2**n mixed
-in as an integer.
+in as an integer.  Where << on an odd-characteristic extension field fails that law, the violation
+key tells whether the result is at least a * x^n (the recorded finding, keys C20:lshift:ext_odd /
+C20:ilshift:ext_odd) or something else (same keys + ':other').
 """
 
 import operator
@@ -296,7 +298,16 @@ class Runner:
         part.outcomes.add((law, tag if not isinstance(tag, int) or tag < 8 else 'c'))
         if not ok:
             exp = WANT_TXT.get(w[0]) or (f'code {w[1]}' if w[0] in ('elem', 'both') else repr(w[1]))
-            rf.note_violation(part, f'C20:{law}:{A.kind}{suffix(law, args, w)}' + (':hang' if tag == 'Hang' else ''),
+            other = ''
+            if law in ('lshift', 'ilshift') and A.kind == 'ext_odd' and args[1] >= 1:
+                # Region of the recorded finding (<< multiplies by x^n instead of 2^n).  Only that exact
+                # misbehaviour keeps the plain key: result must be the reduced element a * x^n (x^n = the
+                # element with integer code p**n, computed in the reference); anything else is ':other'.
+                fallback = A.ref.mul(args[0], A.ref.from_int(A.p ** args[1]))
+                if not (isinstance(tag, int) and not isinstance(tag, bool) and tag == fallback):
+                    other = ':other'
+                    exp += f' (and it is not the known deviation a * x^n = code {fallback} either)'
+            rf.note_violation(part, f'C20:{law}:{A.kind}{suffix(law, args, w)}{other}' + (':hang' if tag == 'Hang' else ''),
                            f'{self.name}: {law}{tuple(args)!r}: observed {obs}, expected {exp}',
                            dict(spec=self.spec, law=law, args=list(args)))
             if tag == 'Hang':
